@@ -465,7 +465,10 @@ class C07(Prop):
             if d_en != sl.bits(req_en) or d_div != sl.ints(want_div):
                 return {"key": "write-does-not-sync", "what": f"device state after {call} differs from the requested state",
                         "expected": f"{sl.bits(req_en)}/{sl.ints(want_div)}", "observed": f["dev"], "history": calls}
-            if now_en != d_en or cp_en != d_en or (div_sup and (now_div != d_div or cp_div != d_div)):
+            # "equals what the client reports for each channel" holds on every flag combination: without divider support no
+            # divider request is sent, the device's dividers stay what they were (want_div = dev_div above), and the client
+            # must go on reporting THOSE, not the never-sent requested ones (C07-r5m2)
+            if now_en != d_en or cp_en != d_en or now_div != d_div or cp_div != d_div:
                 return {"key": "client-view", "what": "client reports a state different from the device "
                         "(now = ch_is_enabled/ch_div_get, cp = dev_channel_get(c).data.en/.div)",
                         "expected": f["dev"], "observed": f"now={f['now']} cp={f['cp']}", "history": calls}
